@@ -326,6 +326,38 @@ def run(ctx):
                               {"cases": [{"request": e["name"], "reply_struct": right["name"], "reply_value": txt,
                                           "reply_bytes": hx(b), "decoded_with": rcls.__qualname__, "decoded": got[:300]}]})
                 break
+    # (4) the request / response headers have the layout the Kafka protocol guide gives them (theorem
+    #     headers_match_kafka): values of the implementation's header struct, encoded by the implementation,
+    #     must be the bytes the model produces for the KAFKA header type
+    kafka_headers = {"RequestHeader_v1": "S(i16,i16,i32,s)", "RequestHeader_v2": "S(i16,i16,i32,s,tg)",
+                     "ResponseHeader_v0": "S(i32)", "ResponseHeader_v1": "S(i32,tg)"}
+    hl, hi, hm = [], [], []
+    for e in entries:
+        kt = kafka_headers.get(e["name"])
+        if kt is None:
+            continue
+        for _ in range(25):
+            val, txt = G.value(e["cls"].SCHEMA)
+            try:
+                out = hx(e["cls"].SCHEMA.encode(val))
+            except Exception:  # noqa
+                out = "raise"
+            hl.append(f"c11 enc {kt} {txt}")
+            hi.append(out)
+            hm.append({"struct": e["name"], "kafka_type": kt, "value": txt, "implementation_bytes": out})
+    missing = [n for n in kafka_headers if not any(e["name"] == n for e in entries)]
+    if missing:
+        ctx.violation("header-layout:missing", f"header structs not found: {missing}", {"cases": missing})
+    if hl:
+        hr = ctx.driver("akdriver", hl)
+        ctx.coverage["header_layout_comparisons"] = len(hl)
+        for a, b, m in zip(hr, hi, hm):
+            if a != b:
+                m["kafka_layout_bytes"] = a
+                ctx.violation(f"header-layout:{m['struct']}",
+                              f"{m['struct']} encodes {m['value']} as {b}; the Kafka header layout {m['kafka_type']} gives {a}",
+                              {"cases": [m]})
+                break
     if mism and not ctx.violations:
         i = mism[0]
         m = meta[i]
